@@ -760,6 +760,8 @@ def write_evidence(tier, seed, batch, wall, workers, n_viol, klines, det_info, s
         "handle_dropped_and_garbage_collected": s["fork:drop"],
         "different_crystal_sharing_name_cell_and_group_number": s["fork:other"],
         "look_alike_crystal_queried_with_keyword_arguments": s["fork:stranger_kw"],
+        "crystal_built_on_the_same_cell_and_group_objects": s["fork:sibling"],
+        "crystal_sharing_the_stored_cif_dictionary": s["fork:derive_cifdata"],
         "steps_skipped_as_not_applicable_to_their_handle": s["skipped_not_applicable_to_handle"],
         "derived_crystals_as_handles": s["fork:derive_P1"] + s["fork:derive_cif"] + s["fork:derive_res"],
         "forks_taken_with_memo_present": s["fork_with_memo"],
